@@ -244,6 +244,8 @@ struct Th {
     tls_torn: bool,
     /// Declared by the thread itself: runs whole calls without being preempted.
     atomic: bool,
+    /// Like the execution's context tag, but only for violations raised by this thread.
+    tag: String,
     yielder: *const (),
     /// Set when the thread receives the baton at its start or after being blocked: its next
     /// scheduling point offers no alternatives (switching away before it did anything is
@@ -267,6 +269,7 @@ impl Th {
             tls: Vec::new(),
             tls_torn: false,
             atomic: false,
+            tag: String::new(),
             yielder: std::ptr::null(),
             just_scheduled: false,
         }
@@ -320,6 +323,9 @@ struct St {
     trace: Vec<String>,
     names: HashMap<usize, String>,
     barrier_waiting: Vec<usize>,
+    /// Appended to the property list of every violation of this execution (set by harnesses in
+    /// which any failed oracle also witnesses another property, e.g. ",C13" after a wrap-around).
+    context_tag: String,
 }
 
 
@@ -338,6 +344,14 @@ unsafe impl Send for Global {}
 
 static GLOBAL: OnceLock<Global> = OnceLock::new();
 static ABANDONED: CoreUsize = CoreUsize::new(0);
+static TAINTED: std::sync::atomic::AtomicBool = std::sync::atomic::AtomicBool::new(false);
+
+/// True once an execution was given up in the middle of a panic. The panic machinery of the OS
+/// thread then still counts that panic as in flight, so any further panic in this process would
+/// abort it: the process must not run further executions (the driver starts a fresh worker).
+pub fn tainted() -> bool {
+    TAINTED.load(Ordering::SeqCst)
+}
 static OWNER: Mutex<()> = Mutex::new(());
 
 fn g() -> &'static Global {
@@ -366,6 +380,7 @@ fn g() -> &'static Global {
             trace: Vec::new(),
             names: HashMap::new(),
             barrier_waiting: Vec::new(),
+            context_tag: String::new(),
         }),
         fibers: Default::default(),
         stacks: UnsafeCell::new(Vec::new()),
@@ -572,8 +587,16 @@ impl St {
                 self.trace
                     .push(format!("      !! VIOLATION {} [{}] {}", property, oracle, message));
             }
+            let mut property = property.to_string();
+            let extra = format!("{},{}", self.context_tag, self.threads.get(tid).map(|t| t.tag.as_str()).unwrap_or(""));
+            for t in extra.split(',').filter(|t| !t.is_empty()) {
+                if !property.split(',').any(|p| p == t) {
+                    property.push(',');
+                    property.push_str(t);
+                }
+            }
             self.violation = Some(Violation {
-                property: property.to_string(),
+                property,
                 oracle: oracle.to_string(),
                 message,
                 tid,
@@ -1039,7 +1062,8 @@ pub(crate) fn tls_lookup(me: usize, key: usize) -> TlsLookup {
 pub(crate) fn tls_insert(me: usize, key: usize, ptr: *mut (), drop: unsafe fn(*mut ())) {
     with(|st| {
         if st.cfg.trace {
-            st.trace.push(format!("t{} tls-init key {:#x}", me, key & 0xffff));
+            let n = st.threads[me].tls.len();
+            st.trace.push(format!("t{} tls-init key #{}", me, n));
         }
         st.threads[me].tls.push(TlsEntry { key, ptr, drop, state: TlsState::Alive });
     })
@@ -1343,6 +1367,24 @@ pub fn violation(property: &str, oracle: &str, message: String) {
     with(|st| st.set_violation(property, oracle, message, me));
 }
 
+/// Every violation reported from now on in this execution also counts for these properties
+/// (comma separated list).
+pub fn set_context_tag(tags: &str) {
+    with(|st| st.context_tag = tags.to_string());
+}
+
+/// Violations raised by the calling model thread from now on also count for these properties.
+pub fn set_thread_tag(tags: &str) {
+    if let Some(me) = current_tid() {
+        with(|st| st.threads[me].tag = tags.to_string());
+    }
+}
+
+/// The context tag of the running execution.
+pub fn context_tag() -> String {
+    with(|st| st.context_tag.clone())
+}
+
 /// True once a violation was recorded in this execution (oracles should stay silent then).
 pub fn draining() -> bool {
     if current_tid().is_none() {
@@ -1525,11 +1567,23 @@ pub fn install_panic_hook() {
                 .map(|l| format!("{}:{}", l.file(), l.line()))
                 .unwrap_or_default();
             let full = format!("panicked at {}: {}", loc, msg);
-            if current_tid().is_some() {
+            if let Some(me) = current_tid() {
                 let _ = LAST_PANIC.try_with(|l| *l.borrow_mut() = Some(full.clone()));
                 if verbose {
                     eprintln!("[model thread] {}", full);
                 }
+                // A panic that nobody injected, on a model thread: the code under test (or the
+                // harness) panicked. Record it and give the execution up right here, on the
+                // panicking stack, before any unwinding: unwinding through code whose invariants
+                // are already broken tends to panic again inside destructors, which aborts.
+                TAINTED.store(true, Ordering::SeqCst);
+                with(|st| {
+                    let m = format!("a call panicked on model thread {}: {}", me, full);
+                    st.set_violation("C13", "panic", m, me);
+                    st.current = ABANDON;
+                });
+                suspend(me);
+                unreachable!("an abandoned model thread was resumed");
             } else {
                 prev(info);
             }
@@ -1588,6 +1642,7 @@ fn run_one(cfg: &Config, prefix: &[CP], body: &StdArc<dyn Fn() + Send + Sync>) -
         st.trace.clear();
         st.names.clear();
         st.barrier_waiting.clear();
+        st.context_tag.clear();
         st.current = 0;
     });
     let b = body.clone();
